@@ -113,6 +113,11 @@ func (eng *Engine) specFor(fn *ssa.Function) *FuncSpec {
 
 func (eng *Engine) pkgOfSpec(spec *FuncSpec) *types.Package {
 	for _, p := range eng.prog.AllPackages() {
+		if p.Pkg.Path() == modPrefix+spec.Pkg {
+			return p.Pkg
+		}
+	}
+	for _, p := range eng.prog.AllPackages() {
 		if shortType(p.Pkg.Path()) == spec.Pkg {
 			return p.Pkg
 		}
